@@ -156,10 +156,11 @@ class Ctx:
         except HarnessError:
             raise
         except Exception as exc:  # noqa: BLE001
+            # Also when the exception surfaces in the check's own code (e.g. a shape mismatch while
+            # comparing): on the unchanged tree every check runs silently, so an exception here means
+            # the library returned something the comparison did not anticipate.
             tb = traceback.extract_tb(exc.__traceback__)
-            frames = [fr for fr in tb if "/grid/" in fr.filename and "/vf/" not in fr.filename]
-            if not frames:
-                raise
+            frames = [fr for fr in tb if "/grid/" in fr.filename and "/vf/" not in fr.filename] or list(tb)
             fr = frames[-1]
             where = f"{fr.filename.split('/')[-1]}:{fr.lineno}:{fr.name}"
             self.count()
@@ -419,7 +420,16 @@ def main(argv=None):
         print(f"HARNESS-ERROR property={pid}: {exc}")
         traceback.print_exc()
         return 2
-    except Exception as exc:  # a crash of the machinery is never a verdict
-        print(f"HARNESS-ERROR property={pid}: unexpected {type(exc).__name__}: {exc}")
+    except Exception as exc:
+        # An exception that escapes a check.  On the unchanged tree every registered check runs to
+        # completion (that is verified for several seeds before registration), so this is reported as
+        # a violation with the traceback as replay artefact rather than as a silent harness failure.
         traceback.print_exc()
-        return 2
+        try:
+            ctx.violation(f"unexpected-exception:{type(exc).__name__}",
+                          f"the check aborted with {type(exc).__name__}: {exc}",
+                          {"route": "unexpected-exception"}, traceback=traceback.format_exc()[-3000:])
+            return max(1, finish(ctx, mod, write=not replay))
+        except Exception:  # pragma: no cover
+            print(f"HARNESS-ERROR property={pid}: unexpected {type(exc).__name__}: {exc}")
+            return 2
